@@ -28,7 +28,7 @@ def run(tier):
     c.coverage["exhaustive"] = True
     c.coverage["distinct_nontrivial"] = res.stats.get("by_check", {}).get("bits", 0) + hres.stats.get("by_check", {}).get("bits", 0)
     c.coverage["rule"] = ("create_world / wrapper constructor with every combination of {C API, C++ wrapper} x {null, non-null flag pointer} x "
-                          "{no directory, multi-character relative directory} x 5 seeds (1, 2, 1000, 2^31-1, 2^32+5); then every query "
+                          "{no directory, multi-character relative directory} x 6 seeds (1, 2, 1000, 2^31-1, 2^32+5, 0); then every query "
                           "function at 15 points (2D and 3D) x property lists, each next to the native call it must equal bit for bit; the world "
                           "contains random composition and random grains models so the seed is observable; the directory is observed through the "
                           "schema file the constructor writes; plus simulated histories (about 20 wrapper calls each) of the life-cycle machine: two wrapper "
